@@ -144,6 +144,9 @@ def _arith(op, a, b):
 
 
 def _power(a, b):
+    if isinstance(b, (int, float, Fraction)) and not (isinstance(b, float) and (b != b or b in (math.inf, -math.inf))) and b == int(b) and abs(b) > MAX_EXP:
+        # the same for an exponent written 100 or 100.0: outside the domain on which the oracle commits itself
+        raise Ambig('exponent out of the evaluator domain')
     if isinstance(b, float) and b == int(b) and abs(b) <= MAX_EXP:
         bi = int(b)
     elif isinstance(b, (int, Fraction)) and Fraction(b).denominator == 1:
@@ -512,6 +515,9 @@ def ev(m, env):
         if m[1] == 'str' and is_num(arg) and m[2][0] not in ('lit', 'field', 'index', 'var'):
             # how a computed number prints depends on its int/float representation
             raise Ambig('str() of a computed number')
+        if m[1] == 'str' and m[2][0] == 'lit' and m[2][1] == 'float':
+            # str(0.0) is "0.0" for the library's float and "0" for the oracle's exact rational: no claim
+            raise Ambig('str() of a float literal')
         return call(m[1], [arg])
     if k == 'calln':
         return call(m[1], [ev(a, env) for a in m[2]])
